@@ -247,7 +247,9 @@ std::string run_scenario(const std::map<std::string, std::string>& kv){
     sim.enable_edge_swap_operation_ = false; sim.perform_initial_triangulation_ = false;
 
     {
-        probe_solver S(sim, cells, threads, true, false);
+        // the solver is deliberately never destroyed: ~solver deletes its writers/contact model through base
+        // pointers without virtual destructors (a finding of another property), which would end the run
+        probe_solver& S = *(new probe_solver(sim, cells, threads, true, false));
         g_solver = &S;
         cells.clear();
         print_state(0, 3, S.get_cell_lst(), S.counter(), false);
